@@ -21,10 +21,14 @@ def kept_leaves(t):
                 if tail[0] == '$sample' and kind == 'num': out.append((ip, kp, val))
                 if tail in (('$search', 'index'), ('$searchMeta', 'index'), ('$vectorSearch', 'index'), ('$vectorSearch', 'numCandidates'), ('$vectorSearch', 'limit')):
                     out.append((ip, kp, val))
+                # enumerated keywords of top-level stages
+                if tail in (('$merge', 'whenMatched'), ('$merge', 'whenNotMatched')) and kind == 'str' and val in ('replace', 'keepExisting', 'merge', 'fail', 'insert', 'discard'):
+                    out.append((ip, kp, val))
     return out
 
 def get_ip(t, ip):
     for i in ip:
+        if jtree.kind(t) in ('obj', 'arr') and i >= len(t): return '<<missing>>'
         if jtree.kind(t) == 'obj': t = t[i][1]
         elif jtree.kind(t) == 'arr': t = t[i]
         else: return '<<missing>>'
